@@ -1,9 +1,13 @@
 package props
 
 import (
+	"context"
 	"errors"
 	"fmt"
+	"io"
 	"math/rand"
+	"net/url"
+	"os"
 	"strings"
 	"time"
 
@@ -36,16 +40,31 @@ type c20variant struct {
 	name  string
 	fails bool
 	// parameters
-	val    string
-	vals   []string
-	min    int
-	max    int
-	equal  string
-	cond   bool
-	logErr bool
+	val     string
+	vals    []string
+	min     int
+	max     int
+	equal   string
+	cond    bool
+	logErr  bool
+	errKind int // which of c20Errors a failing logic step returns
 }
 
 var errC20 = errors.New("step failure")
+
+type c20TimeoutErr struct{}
+
+func (c20TimeoutErr) Error() string   { return "i/o timeout" }
+func (c20TimeoutErr) Timeout() bool   { return true }
+func (c20TimeoutErr) Temporary() bool { return true }
+
+// c20Errors are the errors a failing logic step returns: what kind of error it is must not matter.
+var c20Errors = []error{
+	errC20, context.Canceled, context.DeadlineExceeded, fmt.Errorf("storage: %w", context.DeadlineExceeded), fmt.Errorf("lookup: %w", context.Canceled),
+	c20TimeoutErr{}, io.EOF, io.ErrUnexpectedEOF, errors.New(""), fmt.Errorf("wrapped: %w", errC20), os.ErrNotExist, &url.Error{Op: "Get", URL: "https://x", Err: c20TimeoutErr{}},
+}
+
+func (v *c20variant) err() error { return c20Errors[v.errKind%len(c20Errors)] }
 
 var c20core = []c20variant{
 	{kind: 1, name: "notempty/pass", val: "x"},
@@ -67,10 +86,17 @@ var c20core = []c20variant{
 	{kind: 6, name: "condlogic/condfalse", cond: false, logErr: true},
 	{kind: 7, name: "logic/pass"},
 	{kind: 7, name: "logic/fail", logErr: true, fails: true},
+	{kind: 7, name: "logic/fail-context-deadline", logErr: true, errKind: 3, fails: true},
 	{kind: 8, name: "valuestep"},
 }
 
+// two values that agree on their first 100 bytes
+var c20Long = strings.Repeat("https://tenant.example/saml/acs/", 4)
+
 var c20extra = []c20variant{
+	{kind: 6, name: "condlogic/fail-context-canceled", cond: true, logErr: true, errKind: 1, fails: true},
+	{kind: 4, name: "equals/fail-long-common-prefix", val: c20Long + "a", equal: c20Long + "b", fails: true},
+	{kind: 4, name: "equals/pass-long", val: c20Long + "a", equal: c20Long + "a"},
 	{kind: 1, name: "notempty/space", val: " "},
 	{kind: 2, name: "values/empty-list", vals: nil},
 	{kind: 3, name: "length/empty-min1", val: "", min: 1, fails: true},
@@ -96,7 +122,7 @@ func c20build(ck *checker.Checker, t *c20trace, i int, v *c20variant) {
 		ck.WithConditionalLogicStep(func() bool { t.add(i, roleCond); return v.cond }, func() error {
 			t.add(i, roleLogic)
 			if v.logErr {
-				return errC20
+				return v.err()
 			}
 			return nil
 		}, cb)
@@ -104,7 +130,7 @@ func c20build(ck *checker.Checker, t *c20trace, i int, v *c20variant) {
 		ck.WithLogicStep(func() error {
 			t.add(i, roleLogic)
 			if v.logErr {
-				return errC20
+				return v.err()
 			}
 			return nil
 		}, cb)
@@ -404,7 +430,7 @@ func c20mutate(rng *rand.Rand, chain []*c20variant, mode int) {
 		}
 		if len(cands) > 0 {
 			v := cands[rng.Intn(len(cands))]
-			v.val, v.vals, v.equal, v.logErr = "", []string{"a", "", ""}, "other", true
+			v.val, v.vals, v.equal, v.logErr, v.errKind = "", []string{"a", "", ""}, "other", true, rng.Intn(len(c20Errors))
 		}
 	default:
 		for _, v := range chain {
@@ -429,6 +455,15 @@ func c20random(rng *rand.Rand) *c20variant {
 	v.max = rng.Intn(12) - 2
 	v.cond = rng.Intn(2) == 0
 	v.logErr = rng.Intn(3) == 0
+	v.errKind = rng.Intn(len(c20Errors))
+	if rng.Intn(6) == 0 {
+		// long values that share a prefix of 64 .. 300 bytes and differ (or not) behind it
+		pre := strings.Repeat("p", 60+rng.Intn(240))
+		v.val, v.equal = pre+strs[rng.Intn(len(strs))], pre+strs[rng.Intn(len(strs))]
+		if rng.Intn(3) == 0 {
+			v.equal = v.val + "..."
+		}
+	}
 	v.name = fmt.Sprintf("kind%d", v.kind)
 	return v
 }
